@@ -191,6 +191,9 @@ class NpModuleEnv(ModuleEnv):
             return VUnknown(f'np.{name} (no assumed contract)')
         if isinstance(base, VRec) and base.name == 'arr':
             key = f'ndarray.{name}'
+            if key in eng.c.get('calls', {}):
+                eng.assumed_used.add(key + ' (local)')
+                return self.apply_contract(key, node, eng, st, contract=eng.c['calls'][key], recv=base)
             if key in self.reg:
                 eng.assumed_used.add(key)
                 return self.apply_contract(key, node, eng, st, recv=base)
